@@ -230,14 +230,14 @@ def r7_4(cx):
             rels = [as_relation((x, v)) for x, v, ed in fn.facts_at(pos.bb)]
             rels = [r for r in rels if r]
             if variant == 'InChunk':
-                pos_ok = any(r[0] == 'Gt' and r[2].is_const_int(0) for r in rels)
+                pos_ok = any((r[0] == 'Gt' or r[0] == 'Ne') and r[2].is_const_int(0) for r in rels)   # sizes are unsigned
                 rem = inner.args[0].strip()
                 rem_ok = rem.has_call('NonZero::new') and show(flag.a.strip()) in show(rem)
                 cx.check(okflag and pos_ok and rem_ok, 'transition:InChunk@' + short(fn.name), fn, fn.loc(pos.bb),
                          'size > 0 => InChunk{remaining: size, flag: size < %s}' % limit,
                          fail_detail='InChunk transition: flag %s, guarded by size > 0: %s, remaining = size: %s' % (show(flag)[:80], pos_ok, rem_ok))
             else:
-                zero_ok = any(r[0] == 'Le' and r[2].is_const_int(0) for r in rels)
+                zero_ok = any((r[0] == 'Le' or r[0] == 'Eq') and r[2].is_const_int(0) for r in rels)
                 cx.check(okflag and zero_ok, 'transition:BeforeChunk@' + short(fn.name), fn, fn.loc(pos.bb),
                          'size == 0 => BeforeChunk{flag: size < %s}' % limit,
                          fail_detail='BeforeChunk transition: flag %s, guarded by size == 0: %s' % (show(flag)[:80], zero_ok))
